@@ -3,6 +3,7 @@ import T4V.Proofs.CompileClosed
 import T4V.Proofs.Optimise
 import T4V.Proofs.WriteRead
 import T4V.Proofs.Composition
+import T4V.Proofs.SurfArity
 /-!
 # Property C08 — structural validity of the written file (the clauses that are logic of the model)
 -/
@@ -160,5 +161,24 @@ theorem composition_count_line (mats : List (Nat × List Comp)) :
   congr 2
   rw [List.filter_append, List.length_append, headers_of_comps]
   rfl
+
+/-! ### SURF lines -/
+section
+variable {α : Type} [Add α] [Sub α] [Mul α] [Div α] [Neg α] [OfNat α 0] [OfNat α 1]
+  [LT α] [DecidableLT α] [BEq α] [Transc α]
+
+/-- **every surface written for an elementary surface card has the number of parameters its TRIPOLI-4 keyword expects**
+(1 for PLANEX/Y/Z, 4 for PLANE and SPHERE, 3 for CYLX/Y/Z, 7 for CYL and CONE, 4 for CONEX/Y/Z, 10 for QUAD, 6 for
+TORUSX/Y/Z) — for every mnemonic, every admissible parameter list and every value, including the auxiliary plane of a
+one-sheet cone -/
+theorem surface_parameters_fit (e1 e2 : α) (mn : String) (ps : List α) (coll : List (TSurf α × Int))
+    (h : convertCard e1 e2 mn ps = some coll) : ∀ t ∈ coll, t.1.ps.length = t.1.kind.arity :=
+  SA.arity_convertCard e1 e2 mn ps coll h
+
+/-- … and so has every facet of every macrobody (RPP, BOX, SPH, RCC, RHP/HEX, REC, TRC, ELL, WED, ARB) -/
+theorem macrobody_parameters_fit (e1 e2 : α) (mn : String) (ps : List α) (toNat : α → Nat) (coll : List (TSurf α × Int))
+    (h : convertMacro e1 e2 mn ps toNat = some coll) : ∀ t ∈ coll, t.1.ps.length = t.1.kind.arity :=
+  SA.arity_convertMacro e1 e2 mn ps toNat coll h
+end
 
 end T4V.C08
